@@ -29,3 +29,4 @@ OBLIGATIONS += [
         desc="xz -T1 compress to .xz with a user memory limit, filter chain 0 and any of --filters1/--filters2 in use, dictionaries 1..7 MiB, any limit: when coder_set_compression_settings returns, EVERY chain in use fits the limit; dictionaries only shrink, only with auto-adjust allowed, in whole MiB steps, never below 1 MiB; otherwise xz fails (message_fatal)",
         bounds_q="3 chains, dictionaries 1..7 MiB, all limits"),
 ]
+OBLIGATIONS += reuse("C07", r"direct_mode_memory")   # threaded decoder: direct mode holds only the filter memory
